@@ -36,6 +36,17 @@ class PathInferenceError(UndefinedDataTypeError):
         self.valid_dsdl_roots = valid_dsdl_roots[:] if valid_dsdl_roots is not None else None
 
 
+def _parse_decimal_number(text: str) -> int:
+    """
+    The numbers in a file name (fixed port-ID, version) are plain decimal numbers.
+    The built-in ``int()`` is more lenient than that: it also accepts a sign, underscores,
+    surrounding whitespace, and non-ASCII digits, so that e.g. ``Foo.+1.0.dsdl`` would be read as ``Foo.1.0``.
+    """
+    if not (text.isascii() and text.isdigit()):
+        raise ValueError("Not a decimal number: %r" % text)
+    return int(text)
+
+
 class DSDLDefinition(ReadableDSDLFile):
     """
     A DSDL type definition source abstracts the filesystem level details away, presenting a higher-level
@@ -195,7 +206,7 @@ class DSDLDefinition(ReadableDSDLFile):
         # Parsing the fixed port ID, if specified; None if not
         if str_fixed_port_id is not None:
             try:
-                self._fixed_port_id: int | None = int(str_fixed_port_id)
+                self._fixed_port_id: int | None = _parse_decimal_number(str_fixed_port_id)
             except ValueError:
                 raise FileNameFormatError(
                     "Not a valid fixed port-ID: %s. "
@@ -209,7 +220,9 @@ class DSDLDefinition(ReadableDSDLFile):
 
         # Parsing the version numbers
         try:
-            self._version = Version(major=int(str_major_version), minor=int(str_minor_version))
+            self._version = Version(
+                major=_parse_decimal_number(str_major_version), minor=_parse_decimal_number(str_minor_version)
+            )
         except ValueError:
             raise FileNameFormatError("Could not parse the version numbers", path=self._file_path) from None
 
